@@ -230,14 +230,14 @@ def oracle(case, impl):
                 passed = (i, t, dt, nxt)
                 break
         if passed:
-            fails.append((classify_out('C10:steps-past-requested-time', case, T),
+            fails.append((classify_out('C10:steps-past-requested-time', case, T, passed),
                           'no step goes past requested time %r' % T,
                           'step %d: t=%r dt=%r -> %r' % passed))
             break
         if by_guard:
             hit = [d for d in dumps if abs(d[1] - T) <= 2 * eps(d[2])]
             if not hit:
-                fails.append((classify_out('C10:no-dump-at-requested-time', case, T),
+                fails.append(('C10:no-dump-at-requested-time',
                               'a dump at requested time %r' % T,
                               'dump times %r' % [d[1] for d in dumps][:40]))
                 break
@@ -264,13 +264,18 @@ def oracle(case, impl):
     return fails
 
 
-def classify_out(prefix, case, T):
-    """sub-class of a failing requested time: is it part of a cluster of
-    requested times narrower than a few epsilon?"""
-    tf = case['tf']
-    near = [x for x in case['out'] if x != T and abs(x - T) < 1e-9 * tf]
-    dup = case['out'].count(T) > 1
-    if dup or near:
+def classify_out(prefix, case, T, passed=None):
+    """sub-class of a failing requested time (what known_findings.json would
+    match on): the step that went past it is the very first one / started
+    with two or more requested times within a few epsilon ahead of it"""
+    if passed is None:
+        return prefix
+    i, t, dt, nxt = passed
+    if i == 0:
+        return prefix + ':first-step'
+    tol = 1e-9 * case['tf']
+    near = [x for x in case['out'] if 0 <= x - t < tol]
+    if len(near) >= 2:
         return prefix + ':cluster-within-eps'
     return prefix
 
@@ -444,12 +449,12 @@ def check_cases(cases, R, sample_from=0, tag=''):
             R.count('max_steps-set')
         if c['out']:
             R.count('with-output-times')
-        nshort = sum(1 for a, b in zip([e for e in im['log'] if e[0] == 's'],
-                                       [e for e in im['log'] if e[0] == 's'][1:])
-                     if c['out'] and any(abs(b[1] - T) <= 4 * EPS * c['tf'] * max(b[3], 1)
-                                         for T in c['out']))
-        if nshort:
-            R.count('landed-on-requested-time', nshort)
+        st = [e for e in im['log'] if e[0] == 's']
+        nland = sum(1 for b in st[1:]
+                    if c['out'] and any(abs(b[1] - T) <= 4 * EPS * c['tf'] * max(b[3], 1)
+                                        for T in c['out']))
+        if nland:
+            R.count('steps-landing-on-requested-time', nland)
         R.d['events_compared'] = R.d.get('events_compared', 0) + len(it)
         R.case(json.dumps(c, sort_keys=True), nontrivial(c, im),
                {'case': c, 'impl_events': it[:12], 'model_events': mt[:12]}
